@@ -175,6 +175,8 @@ def eval_case(case):
         bad('entry', 'not an object')
         return out
     payload = pelgen.payload_of(sec)
+    if case.get('unconstrained_payload'):
+        return out       # built-in format fed bytes that are not valid UTF-8/JSON: only termination was required
     mode = has_decoder(sec, creator, plugins, beh)
     LAST['mode'] = str(mode) + ('/err' if 'Error' in ent else '')
     rest = {k: v for k, v in ent.items() if k not in ('Section Version', 'Sub-section type', 'Created by')}
